@@ -508,6 +508,20 @@ def run(ctx):
             glines.append("marshal " + desc)
             glines.append("unmarshal " + (hexb if hexb != "-" else ""))
         mout = ctx.model(glines, exe=exe) if exe else None
+        # the two models agree on data graphs: Code.lean's marshalC / unmarshalC on a heap without code objects vs Graph.lean
+        mout2 = ctx.model([("marshalc " + l[8:] + " # # ") if l.startswith("marshal ") else ("unmarshalc" + l[9:]) for l in glines], exe=exe) if exe else None
+        if mout is not None and mout2 is not None:
+            nd = 0
+            for a1, a2, l in zip(mout, mout2, glines):
+                a2n = a2[:-5].rstrip() if a2.endswith(" #  # ") or a2.endswith("#  #") else a2
+                a2n = re.sub(r"\s*#\s*#\s*$", "", a2)
+                if a1.strip() != a2n.strip():
+                    nd += 1
+                    if nd == 1:
+                        broken.append("Code.lean and Graph.lean disagree on a data graph: %s -> %s vs %s" % (l[:200], a1[:200], a2[:200]))
+                        ctx.broken.append(broken[-1])
+            gstats["models_compared_on_data_graphs"] = len(glines)
+            gstats["model_model_diffs"] = nd
         for i, (seed, idx, verdict, reg, hexb, desc) in enumerate(graph_cases):
             gstats["cases"] += 1
             gstats["with_registry"] += int(reg)
